@@ -791,6 +791,9 @@ func (f *Frame) alloc(t types.Type, name string) Val {
 	pt := types.NewPointer(t)
 	if isStruct(t) {
 		f.scatter(t, r, vc.te.zero(t))
+		if typeKey(t) == "strings.Builder" {
+			f.writeAddr(&Addr{kind: "C", loc: builderNLLoc, li: LocInfo{Kind: "C", Val: types.Typ[types.Int]}, ref: r}, "0")
+		}
 		return Val{t: r, typ: pt}
 	}
 	if at, ok := t.Underlying().(*types.Array); ok && isStruct(at.Elem()) {
